@@ -12,7 +12,9 @@ import gen_casttable
 
 PID = 'C01'
 THEOREMS = ['C01_expr_correct', 'C01_expr_code_correct', 'C01_expr_nonvacuous', 'C01_common_type', 'C01_typing', 'C01_cast_table', 'C01_arith', 'C01_compare', 'C01_shift',
-            'C01_neg', 'C01_bitnot', 'C01_lognot', 'C01_nonvacuous']
+            'C01_neg', 'C01_bitnot', 'C01_lognot', 'C01_nonvacuous',
+            # package exprmem (Properties_C01_exprmem.v): expressions over local objects: loads, stores, assignment, op=, ++/--, byte memory, frame layout
+            'C01_load_store_same', 'C04_store_disjoint', 'C04_store_outside', 'C01_load_by_type', 'C01_store_by_type', 'C01_mem_typing', 'C01_incdec_rewrite', 'C01_exprmem_correct', 'C01_order_irrelevant', 'C01_bin_either_order', 'C01_writes_sound', 'C01_footprint_sound', 'C01_spec_conservative', 'C01_mem_jump_code_simulates', 'C01_exprmem_code_correct', 'C01_layout_wf', 'C01_layout_fits', 'C01_exprmem_correct_laidout', 'C01_wf_frame_check', 'C01_temps_fit_check', 'C01_exprmem_nonvacuous', 'C01_order_nonvacuous', 'C01_bool_postfix_right']
 MODELRUN = os.path.join(VERIF, 'ocaml/modelrun')
 PRINTF = 'int printf(const char *, ...);\n'
 LOAD = {'bool': 'movsbl (%rax), %eax', 'i8': 'movsbl (%rax), %eax', 'u8': 'movzbl (%rax), %eax', 'i16': 'movswl (%rax), %eax',
@@ -238,7 +240,7 @@ def main():
         gen_casttable.gen(REPO, os.path.join(COQ, 'theories/Gen/CastTable.v'))
     except GenError as e:
         run.proof_broken.append('translator: ' + str(e))
-    run.check_proofs(deps=['theories/Model/CodegenInt.vo', 'theories/Gen/CastTable.vo', 'theories/Model/ConstFold.vo', 'theories/Model/ExprGen.vo', 'theories/Proofs/ExprGenProofs.vo', 'theories/Model/ExprFlat.vo', 'theories/Proofs/ExprFlatProofs.vo'])
+    run.check_proofs(deps=['theories/Model/CodegenInt.vo', 'theories/Gen/CastTable.vo', 'theories/Model/ConstFold.vo', 'theories/Model/ExprGen.vo', 'theories/Proofs/ExprGenProofs.vo', 'theories/Model/ExprFlat.vo', 'theories/Proofs/ExprFlatProofs.vo'], extra=['exprmem'])
     NCORPUS = run_corpus(run, PID, src)          # minimised past failures first
     rc, o, e = sh([os.path.join(VERIF, 'ocaml/build.sh')], timeout=900)
     if rc != 0:
@@ -370,9 +372,14 @@ int main(void) {
                            meaning='line 1: conversions of an enum object holding -1 (enum types are 4-byte signed in chibicc) to double, float, long, unsigned long, through unsigned int, >> 1, < 0, sizeof; line 2: values of postfix ++/-- on bit-fields (int:3, unsigned:2, _Bool:1), through pointers, on unsigned char and _Bool, and the objects afterwards'),
                       dict(area='runtime', context='enum-postfix-program', type='mixed', where='fixed-program'))
 
+    # ---------------- tie of package exprmem: expressions over local variables with side effects ----------------
+    tie_dist = {}; tie_e = tie_n = 0
+    if not os.environ.get('VERIF_SKIP_PROOFS'):
+        tie_e, tie_n, tie_dist, tie_samples = run_tie(run, 'exprmem', src, 250 if run.quick() else 2500, 'runtime')
     cov = dict(evaluations=evals, distinct_nontrivial=len(nontriv) + ntext,
                rule='(c) boundary grid: every binary operator x 81 operand type pairs x 4-11 boundary values per operand (0, 1, extremes, multiples of 2^32), every unary operator x 9 types, value and truth value at run time against the Coq spec; (a) every one-operator function: 16 binary operators x 81 operand type pairs, 4 unary x 9, 81 casts: -S instruction text = proved model; (b) random expression trees (depth 1-%d) over 9 types on volatile operands, each in initializer / argument / return / assignment / if / while / ! / ?: / && contexts, every compound assignment operator x 81 type pairs, ++/-- pre/post x 9 types x boundary values, against the Coq spec (undefined cases filtered by the spec); non-trivial = depth >= 2 or a one-operator text comparison' % (3 if run.quick() else 5),
                samples=samples, input_distribution=dist, traces_validated_against_impl=ntext, text_mismatches=len(mism))
+    cov['rule'] = cov.get('rule', '') + ' (e) package exprmem: random expression trees (depth 1-5) over 3-6 local variables of random integer types with assignment, op=, ++/-- (race-free per the Coq spec): value and final values of all variables of the compiled program = Coq spec; -S text of whole functions = Coq model text (labels by first appearance and as positions; frame offsets from the Coq layout)'; cov['tie_exprmem'] = tie_dist; cov['evaluations'] = cov.get('evaluations', 0) + tie_e; cov['distinct_nontrivial'] = cov.get('distinct_nontrivial', 0) + tie_n
     return run.finish(cov,
         ['x86-lite (Model/X86Int.v) is my reading of the Intel SDM for the ~30 integer instructions chibicc emits; it is validated against the CPU only through the run-time programs',
          'signed narrowing wraps and >> of negatives is arithmetic (implementation-defined choices of gcc/chibicc)'],
